@@ -1810,3 +1810,143 @@ silent("refactor-ccode-product-join", ["C14"], CF,
        "                self.join_rec(\" * \", expr.children, PREC_PRODUCT,\n"
        "                    force_parens_around=(Remainder, FloorDivMarker)\n"
        "                    if False else (Remainder,)),")
+
+
+# ---------------------------------------------------------------------------
+# C16: AC search
+# ---------------------------------------------------------------------------
+
+fire("c16-ac-leftovers-ignored", ["C16"], UNF,
+     "            if len(plain_var_candidates) == len(other_leftovers) == 0:\n",
+     "            if not plain_var_candidates:\n",
+     "P/ac/free/direct-exit-needs-nothing-left")
+fire("c16-ac-free-vars-ignored", ["C16"], UNF,
+     "            if len(plain_var_candidates) == len(other_leftovers) == 0:\n",
+     "            if not other_leftovers:\n",
+     "P/ac/free/direct-exit-needs-nothing-left")
+silent("c16-ac-empty-test-rewritten", ["C16"], UNF,
+       "            if len(plain_var_candidates) == len(other_leftovers) == 0:\n",
+       "            if not plain_var_candidates and not other_leftovers:\n")
+silent("c16-ac-empty-test-len", ["C16"], UNF,
+       "            if len(plain_var_candidates) == len(other_leftovers) == 0:\n",
+       "            if len(plain_var_candidates) == 0 and "
+       "len(other_leftovers) == 0:\n")
+fire("c16-ac-index-not-removed", ["C16"], UNF,
+     "                new_rhs_leftovers = other_leftovers - {other_idx}\n",
+     "                new_rhs_leftovers = other_leftovers\n",
+     "P/ac/children/matched-index-removed")
+fire("c16-ac-rematch-allowed", ["C16"], UNF,
+     "                if other_idx not in other_leftovers:\n"
+     "                    # Don't re-match any elements.\n"
+     "                    continue\n",
+     "",
+     "P/ac/children/no-rematch")
+fire("c16-ac-pair-records-dropped", ["C16"], UNF,
+     "                new_urecs = unify_many(pair_urecs, urec)\n",
+     "                new_urecs = [urec]\n",
+     "P/ac/children/records-merged")
+fire("c16-ac-start-misses-first", ["C16"], UNF,
+     "            set(range(len(other.children))))",
+     "            set(range(1, len(other.children))))",
+     "P/ac/start/all-target-children")
+fire("c16-ac-candidate-wrong-index", ["C16"], UNF,
+     "                    i_matches.append((j, result))",
+     "                    i_matches.append((j + 1, result))",
+     "P/ac/candidates/index-matches-child")
+fire("c16-ac-candidate-ignores-incoming", ["C16"], UNF,
+     "                result = self.rec(my_child, other_child, urecs)\n"
+     "                if result:\n"
+     "                    i_matches",
+     "                result = self.rec(my_child, other_child,\n"
+     "                        [UnificationRecord([])])\n"
+     "                if result:\n"
+     "                    i_matches",
+     "P/ac/candidates/index-matches-child")
+fire("c16-ac-partition-base-first-only", ["C16"], UNF,
+     "                if k == 1:\n                    yield [s]\n",
+     "                if k == 1:\n                    yield [set(list(s)[:1])]\n",
+     "P/ac/partitions/base-is-whole-set")
+fire("c16-ac-partition-rest-not-reduced", ["C16"], UNF,
+     "                    for partition in partitions(s - subset, k - 1):",
+     "                    for partition in partitions(s, k - 1):",
+     "P/ac/partitions/step-splits-off-a-subset")
+fire("c16-ac-empty-parts", ["C16"], UNF,
+     "                for size in range(1, max_size + 1):",
+     "                for size in range(0, max_size + 1):",
+     "P/ac/partitions/parts-non-empty")
+fire("c16-ac-binding-first-child-only", ["C16"], UNF,
+     "                        var, factory(other.children[i] for i in subset))",
+     "                        var, factory(other.children[i] for i in subset\n"
+     "                                     if i == min(subset)))",
+     "P/ac/free/variable-gets-its-part")
+fire("c16-ac-incoming-records-dropped", ["C16"], UNF,
+     "                    # urecs was not merged in, do it here.\n"
+     "                    yield from unify_many(urecs, result)",
+     "                    yield result",
+     "P/ac/free/incoming-records-kept")
+fire("c16-ac-conflict-ignored", ["C16"], UNF,
+     "                    result = result.unify(rec)\n"
+     "                    if not result:\n"
+     "                        break\n",
+     "                    result = result.unify(rec) or result\n"
+     "                    if not result:\n"
+     "                        break\n",
+     "P/ac/free/bindings-merged")
+fire("c16-ac-class-test-dropped", ["C16"], UNF,
+     "    def map_commut_assoc(self, expr, other, urecs, factory):\n"
+     "        if not isinstance(other, type(expr)):\n"
+     "            return\n",
+     "    def map_commut_assoc(self, expr, other, urecs, factory):\n"
+     "        if not hasattr(other, 'children'):\n"
+     "            return\n",
+     "P/ac/class-tested-first")
+silent("c16-ac-comment-and-rename-free", ["C16"], UNF,
+       "                new_rhs_leftovers = other_leftovers - {other_idx}\n\n"
+       "                for cand_urec in new_urecs:\n"
+       "                    yield from match_children(\n"
+       "                            cand_urec, next_cand_idx + 1, new_rhs_leftovers)",
+       "                for cand_urec in new_urecs:\n"
+       "                    yield from match_children(\n"
+       "                            cand_urec, next_cand_idx + 1,\n"
+       "                            other_leftovers - {other_idx})")
+
+fire("c16-unify-map-in-place", ["C16"], UNF,
+     "    result = map1.copy()\n",
+     "    result = map1\n",
+     "P/unify_map/copy")
+silent("c16-unify-map-dict-copy", ["C16"], UNF,
+       "    result = map1.copy()\n",
+       "    result = dict(map1)\n")
+fire("c16-unify-rmap-unchecked", ["C16"], UNF,
+     "        new_rmap = unify_map(self.rmap, other.rmap)\n"
+     "        if new_rmap is None:\n"
+     "            return None\n",
+     "        new_rmap = unify_map(self.rmap, other.rmap) or {}\n",
+     "P/UnificationRecord.unify/both-maps")
+fire("c16-unify-lmap-self-only", ["C16"], UNF,
+     "        new_lmap = unify_map(self.lmap, other.lmap)\n",
+     "        new_lmap = unify_map(self.lmap, self.lmap)\n",
+     "P/UnificationRecord.unify/both-maps")
+silent("c16-unify-none-test-rewritten", ["C16"], UNF,
+       "        new_rmap = unify_map(self.rmap, other.rmap)\n"
+       "        if new_rmap is None:\n"
+       "            return None\n",
+       "        new_rmap = unify_map(other.rmap, self.rmap)\n"
+       "        if new_rmap is not None:\n"
+       "            pass\n"
+       "        else:\n"
+       "            return None\n")
+fire("c16-unify-many-keeps-none", ["C16"], UNF,
+     "        if unif_result is not None:\n"
+     "            result.append(unif_result)\n",
+     "        result.append(unif_result)\n",
+     "P/unify_many/filters-none")
+silent("c16-unify-many-comprehension", ["C16"], UNF,
+       "    result = []\n"
+       "    for uni1 in unis1:\n"
+       "        unif_result = uni1.unify(uni2)\n"
+       "        if unif_result is not None:\n"
+       "            result.append(unif_result)\n\n"
+       "    return result\n",
+       "    merged = [uni1.unify(uni2) for uni1 in unis1]\n"
+       "    return [m for m in merged if m is not None]\n")
